@@ -3,7 +3,8 @@
 From Coq Require Import List ZArith QArith Qabs Bool.
 From Coq Require Export PrimFloat.
 From DV Require Export Base.Corr Base.PyList Base.C07_Num Model.C07_Spea2 Model.C07_Nsga3
-                       Model.C07_RefPoints Model.C07_FloatInst.
+                       Model.C07_RefPoints Model.C07_FloatInst Model.C07_Intercepts Model.C04_NDSort
+                       Model.C04_LogSort Model.C07_Full.
 Import ListNotations.
 
 Definition nl_eqb := list_eqb Nat.eqb.
@@ -46,7 +47,23 @@ Inductive case :=
 (* one selNSGA3 call: best_point / worst_point / front_worst from the previous memory and the fitnesses *)
 | CPoints (prev_best prev_worst : option (list Z)) (fits : list (list Z)) (obs_best obs_worst obs_front_worst : list Z)
 (* find_extreme_points on integer-valued fitnesses *)
-| CExtreme (fits : list (list Z)) (best : list Z) (prev : option (list (list Z))) (obs : list (list Z)).
+| CExtreme (fits : list (list Z)) (best : list Z) (prev : option (list (list Z))) (obs : list (list Z))
+(* find_intercepts(extreme_points, best_point, current_worst, front_worst) on exact inputs.
+   robust = true: every decision of the exact model (singular / zero component / guards) has a margin
+   that rounding cannot cross (decided by the harness from exact quantities, never from the observed
+   value): the observed intercepts must be the model's, within the relative tolerance tol.
+   robust = false (a guard holds with equality or nearly so, or the elimination is inexact on a
+   singular matrix): the observed value must be one of the values a branch can return. *)
+| CIcpt (ext : list (list Q)) (best worst fw : list Q) (robust : bool) (tol : Q) (obs : list Q)
+(* selNSGA3 as one function of the population: C04's sorter model, best/worst/extreme points,
+   find_intercepts, association, niching — everything recomputed from the weighted values; the
+   only recorded data are the shuffles.  robust/tol as for CIcpt (when not robust the boundary
+   decision of the float code is replayed: the branch value closest to the observed intercepts) *)
+| CFull (log : bool) (wv : list (list Z)) (k : nat) (refs : list (list Q))
+        (mem : option (list Z * list Z)) (pext : option (list (list Z))) (codes : list (list nat))
+        (robust : bool) (tol : Q)
+        (obs_fronts : list (list nat)) (obs_best obs_worst : list Z) (obs_ext : list (list Z)) (obs_icpt : list Q)
+        (obs_niches obs_chosen obs_counts : list nat).
 
 Definition eps_q : Q := 1 # 4503599627370496.          (* numpy.finfo(float).eps = 2^-52 *)
 Definition eps_f : float := 0x1p-52%float.
@@ -80,6 +97,46 @@ Fixpoint forall3b {A B C} (f : A -> B -> C -> bool) (a : list A) (b : list B) (c
   end.
 
 Definition q_close (tol x y : Q) : bool := q_leb (Qabs (x - y)) tol.
+
+(* |a - b| <= tol * |a| coordinatewise (a = model, b = observed) *)
+Definition vec_close (tol : Q) (a b : list Q) : bool :=
+  Nat.eqb (length a) (length b)
+  && forallb (fun p => q_leb (Qabs (fst p - snd p)) (tol * Qabs (fst p))) (zip a b).
+
+(* the values the branches of find_intercepts can return *)
+Definition icpt_cands (ext : list (list Q)) (best worst fw : list Q) : list (icpt_branch * list Q) :=
+  [(BSingular, worst); (BGuard, fw)] ++
+  match solve (length best) (zip (icpt_matrix ext best) (repeat 1%Q (length best))) with
+  | Some x => if existsb (fun v => Qeq_bool v 0) x then [] else [(BMain, map (fun v => Qred (/ v)) x)]
+  | None => []
+  end.
+
+(* on an exactly singular system whose binary64 elimination is inexact, LAPACK may not notice the
+   singularity and return SOME solution of the (consistent) system; if it passes the guards the code
+   returns its reciprocals (observed: extreme points (5,1,3), (1,4,3), (1,4,3) -> intercepts
+   15.83, 11.875, 5).  Such an observation is accepted as what it is: guard-passing intercepts of a
+   hyperplane through the extreme points. *)
+Definition obs_solves (ext : list (list Q)) (best worst obs : list Q) : bool :=
+  Nat.eqb (length obs) (length best)
+  && forallb (fun row => q_leb (Qabs (vdot row (map Qinv obs) - 1)) (1 # 1000000)) (icpt_matrix ext best)
+  && negb (existsb (fun v => q_leb v icpt_min) obs)
+  && negb (existsb (fun p => q_ltb (snd p + (1 # 1000000000) * (Qabs (snd p) + Qabs (fst p))) (fst p))
+                   (zip (map2 Qplus obs best) worst)).
+
+Definition icpt_pick (robust : bool) (tol : Q) (obs : list Q) : icpt_fun :=
+  fun ext best worst fw =>
+    let m := find_intercepts_b ext best worst fw in
+    if robust || vec_close tol (snd m) obs then m
+    else match find (fun c => vec_close tol (snd c) obs) (icpt_cands ext best worst fw) with
+         | Some c => c
+         | None =>
+             match fst m with
+             | BSingular => if obs_solves ext best worst obs then (BMain, obs) else m
+             | _ => m
+             end
+         end.
+
+Definition mkpop (ws : list (list Z)) : list ind := combine (seq 0 (length ws)) ws.
 
 Definition check (c : case) : bool :=
   match c with
@@ -122,4 +179,16 @@ Definition check (c : case) : bool :=
   | CPoints pb pw fits ob ow ofw =>
       zl_eqb (update_best pb fits) ob && zl_eqb (update_worst pw fits) ow && zl_eqb (update_worst None fits) ofw
   | CExtreme fits best prev obs => list_eqb zl_eqb (find_extreme_points fits best prev) obs
+  | CIcpt ext best worst fw robust tol obs =>
+      vec_close tol (snd (icpt_pick robust tol obs ext best worst fw)) obs
+  | CFull log wv k refs mem pext codes robust tol ofronts obest oworst oext oicpt oniches ochosen ocounts =>
+      match nsga3_full_gen (icpt_pick robust tol oicpt) log (mkpop wv) k refs mem pext codes with
+      | None => false
+      | Some o =>
+          list_eqb nl_eqb (f_fronts o) ofronts && zl_eqb (f_best o) obest && zl_eqb (f_worst o) oworst
+          && list_eqb zl_eqb (f_ext o) oext && vec_close tol (f_icpt o) oicpt
+          && nl_eqb (f_niches o) oniches
+          && o_ok (f_core o) && nl_eqb (o_chosen (f_core o)) ochosen && nl_eqb (o_counts (f_core o)) ocounts
+          && match o_draws (f_core o) with [] => true | _ => false end
+      end
   end.
